@@ -42,7 +42,7 @@ def oneIterRun (tr : Tr) (m : Mode) (b : BitVector) (it0 : Outcome OneIterSt) (c
            | .ok (it', false) => fin (OneIterSt.nextBackQ tr m b it')
            | .fault e => (acc.1 ++ [renderFault e], none))
         | 'l' => (acc.1 ++ [s!"l{it.remaining}"], some it)
-        | _ => (acc.1 ++ ["?"], some it)
+        | _ => (acc.1 ++ ["*"], some it)
     let (out, _) := calls.foldl step ([], some it0)
     " ".intercalate out
 
@@ -60,7 +60,7 @@ def bitIterRun (b : BitVector) (calls : List String) : String :=
       | 'B' => let lim := lim - min k (lim - nx)
         if nx ≥ lim then (o ++ ["-"], nx, lim) else (o ++ [get (lim - 1)], nx, lim - 1)
       | 'l' => (o ++ [s!"l{lim - nx}"], nx, lim)
-      | _ => (o ++ ["?"], nx, lim)) ([], 0, b.len)
+      | _ => (o ++ ["*"], nx, lim)) ([], 0, b.len)
   " ".intercalate out
 
 /-- (rank, position) pairs of the set bits of a reference sequence -/
